@@ -131,6 +131,38 @@ static void stub_src_destroy(sqfs_object_t *o)
 	(void)o;
 }
 
+/* the other hooks of the source are not used by next(); they exist so that
+ * every function-pointer call site of dir_hl.c has a contract target */
+static int stub_src_read_link(sqfs_dir_iterator_t *it, char **out)
+{
+	(void)it; *out = NULL;
+	VERIF_ASSERT(0, "C11.hl.src_hook_unused");
+	return SQFS_ERROR_NO_ENTRY;
+}
+static int stub_src_open_subdir(sqfs_dir_iterator_t *it, sqfs_dir_iterator_t **out)
+{
+	(void)it; *out = NULL;
+	VERIF_ASSERT(0, "C11.hl.src_hook_unused");
+	return SQFS_ERROR_NO_ENTRY;
+}
+static void stub_src_ignore_subdir(sqfs_dir_iterator_t *it)
+{
+	(void)it;
+	VERIF_ASSERT(0, "C11.hl.src_hook_unused");
+}
+static int stub_src_open_file_ro(sqfs_dir_iterator_t *it, sqfs_istream_t **out)
+{
+	(void)it; *out = NULL;
+	VERIF_ASSERT(0, "C11.hl.src_hook_unused");
+	return SQFS_ERROR_NO_ENTRY;
+}
+static int stub_src_read_xattr(sqfs_dir_iterator_t *it, sqfs_xattr_t **out)
+{
+	(void)it; *out = NULL;
+	VERIF_ASSERT(0, "C11.hl.src_hook_unused");
+	return SQFS_ERROR_NO_ENTRY;
+}
+
 struct outcome {
 	bool is_link;
 	char target[NLEN + 1];
@@ -149,6 +181,11 @@ static void one_run(int run, struct outcome res[2])
 	s->base.obj.refcount = 1;
 	s->base.obj.destroy = stub_src_destroy;
 	s->base.next = stub_src_next;
+	s->base.read_link = stub_src_read_link;
+	s->base.open_subdir = stub_src_open_subdir;
+	s->base.ignore_subdir = stub_src_ignore_subdir;
+	s->base.open_file_ro = stub_src_open_file_ro;
+	s->base.read_xattr = stub_src_read_xattr;
 	s->run = run;
 	s->pos = 0;
 
@@ -159,7 +196,7 @@ static void one_run(int run, struct outcome res[2])
 		int which;
 
 		ent = NULL;
-		ret = flt->next(flt, &ent);
+		ret = next(flt, &ent);
 		VERIF_ASSERT(ret == 0 && ent != NULL, "C11.hl.passes_all");
 		which = ent == &g_ent[run][0].e ? 0 : 1;
 		VERIF_ASSERT(ent == &g_ent[run][which].e, "C11.hl.passes_all");
@@ -171,14 +208,14 @@ static void one_run(int run, struct outcome res[2])
 		if (res[which].is_link) {
 			char *t = NULL;
 
-			ret = flt->read_link(flt, &t);
+			ret = read_link(flt, &t);
 			VERIF_ASSERT(ret == 0 && t != NULL, "C11.hl.passes_all");
 			for (k = 0; k < NLEN; ++k)
 				res[which].target[k] = t[k];
 		}
 	}
 	ent = NULL;
-	ret = flt->next(flt, &ent);
+	ret = next(flt, &ent);
 	VERIF_ASSERT(ret == 1 && ent == NULL, "C11.hl.passes_all");
 }
 
